@@ -120,6 +120,14 @@ def gen_routes():
         mode = 'first_wins' if ins.group(1).startswith('or_insert') else 'overwrite'
         serve_rows.append((cls, lock.group(1), mode, fmt.group(1)))
     req = fn_body(t, 'request')
+    # the guard that matters is whatever may return BEFORE the download is handed to the pool; what the
+    # download thread does afterwards (bookkeeping of the downloads under way) is not a guard
+    cut = req.find('self.download_pool.execute(')
+    if cut < 0:
+        raise TranslateError('request: the download is not handed to download_pool.execute')
+    req = req[:cut]
+    if re.search(r'\breturn\b', req) and not re.search(r'contains_key', req):
+        raise TranslateError('request: returns before the download is started for a reason the translator does not know')
     guard = re.search(r'if\s+let\s+Ok\((\w+)\)\s*=\s*self\.(\w+)\.read\(\)\s*\{\s*if\s+\1\.contains_key\(&id\)\s*\{\s*return;', req)
     base = re.search(r'let\s+base_url\s*=\s*if\s+addr\.is_ipv6\(\)\s*\{\s*format!\("([^"]*)",\s*addr,\s*port\)\s*\}\s*else\s*\{\s*format!\("([^"]*)",\s*addr,\s*port\)\s*\};', t)
     if not base:
